@@ -51,11 +51,18 @@ def main():
     # the whole main of the binary under combinations of output options (real MIR; see maincore.py)
     import maincore
     jobs += maincore.jobs_nopanic(quick)
+    # the Graphviz descriptions (-d / -p): building them must not panic either (the full C14 obligations ride along)
+    import dotcore
+    import c14
+    jobs.append(('BDDGraph description k=1', dotcore.unit_bdd_graph, (1, {})))
+    for sh in c14.SHAPES:
+        sh2 = 'L' if sh == ('L',) else sh
+        jobs.append(('SymbolicParseTree description %r k=2' % (sh2,), dotcore.unit_parse_tree, (sh2, 2, {})))
     rep = run_property(PID, lemma, ['and', 'or', 'not', 'exists', 'all', 'aln', 'amn', 'exn'], [],
                        bounds={'token_sequences': '0..%d tokens over the full alphabet' % (6 if quick else 8), 'number_literals': '<= 24 digits', 'identifier_text': '<= 8 characters',
                                'sketches': len(shapes), 'atoms_k': 3},
                        assumptions=props.COMMON_ASSUME + ['regex engine modelled by its contract (see C08)', 'read_to_string succeeds (invalid UTF-8 is rejected there with an Err: an I/O contract)'],
-                       uncovered=['byte-level input and invalid UTF-8 (rejected by read_to_string before the crate sees it)', 'nesting depth 200 / 64 KiB scale', 'clap option parsing itself, real file handling, gnuplot (-g)', 'the Graphviz exports -p / -d (see C14: not applicable)',
+                       uncovered=['byte-level input and invalid UTF-8 (rejected by read_to_string before the crate sees it)', 'nesting depth 200 / 64 KiB scale', 'clap option parsing itself, real file handling, gnuplot (-g)', 'the rendering of the Graphviz text by the `dot` crate (the crate\'s own node / edge / label code is covered: see C14)',
                                   'non-ASCII digits: the regex class \\d and str::parse are library code outside the model'],
                        extra_jobs=jobs)
     sys.exit(rep.finish())
